@@ -6,7 +6,9 @@
    the computation, waking up, returning. Checked exhaustively by TLC for all interleavings. *)
 EXTENDS Naturals, Sequences, FiniteSets, TLC
 
-CONSTANTS Goroutines, Keys, MaxCalls
+CONSTANTS Goroutines, Keys, MaxCalls,
+          SeedOutputs    \* BOOLEAN: FALSE = the code. TRUE = the tempting shortcut "an answer is already in its target form": the
+                         \* computation of k also stores its OUTPUT string as a finished entry that maps to itself
 
 VARIABLES cache,    \* key -> BOOLEAN            an entry (a once-closure) is stored
           once,     \* key -> "idle" | "running" | "done"
@@ -49,13 +51,19 @@ Enter(g) == /\ pc[g] = "have"
                  [] once[k] = "done"    -> once' = once /\ pc' = [pc EXCEPT ![g] = "ret"]
             /\ UNCHANGED <<cache, computes, val, cur, ncalls, rets>>
 
+(* the string that is the answer for k is itself a possible question: OutOf(k) is the key it equals (some other key) *)
+OutOf(k) == IF Keys \ {k} = {} THEN k ELSE CHOOSE j \in Keys \ {k} : TRUE
 Compute(g) == /\ pc[g] = "computing"
-              /\ LET k == cur[g] IN
-                 /\ val' = [val EXCEPT ![k] = F(k)]
+              /\ LET k == cur[g]
+                     o == OutOf(k)
+                     seed == SeedOutputs /\ o # k /\ ~cache[o]         \* LoadOrStore(out, func() string { return out })
+                 IN
+                 /\ val' = IF seed THEN [val EXCEPT ![k] = F(k), ![o] = <<"itself", o>>] ELSE [val EXCEPT ![k] = F(k)]
                  /\ computes' = [computes EXCEPT ![k] = @ + 1]
-                 /\ once' = [once EXCEPT ![k] = "done"]
+                 /\ once' = IF seed THEN [once EXCEPT ![k] = "done", ![o] = "done"] ELSE [once EXCEPT ![k] = "done"]
+                 /\ cache' = IF seed THEN [cache EXCEPT ![o] = TRUE] ELSE cache
               /\ pc' = [pc EXCEPT ![g] = "ret"]
-              /\ UNCHANGED <<cache, cur, ncalls, rets>>
+              /\ UNCHANGED <<cur, ncalls, rets>>
 
 Wake(g) == /\ pc[g] = "waiting" /\ once[cur[g]] = "done"
            /\ pc' = [pc EXCEPT ![g] = "ret"]
